@@ -143,6 +143,26 @@ Theorem writeback_nan_pattern : forall V (d : V) mask (active : list V), length 
 Proof. intros V d mask. exact (ProofsReduce.writeback_nan_pattern d mask). Qed.
 Print Assumptions writeback_nan_pattern.
 
+(* 8. _restart_connectivity_check: it reports "nothing changed" iff the ACTIVE columns of the active pits equal the
+   reduced pit columns; immediately after a restart a second check reports nothing to do and changes nothing; the
+   write-back followed by the reduction returns exactly the change a component made (for any re-identification) *)
+Theorem restart_check_idempotent : forall ident s,
+  restart_check ident (snd (restart_check ident s)) = (false, snd (restart_check ident s)).
+Proof. exact ProofsReduce.restart_check_idempotent. Qed.
+Print Assumptions restart_check_idempotent.
+
+Theorem restart_check_false_iff : forall ident s,
+  fst (restart_check ident s) = false <->
+  select (r_mn s) (r_pn s) = r_an s /\ select (r_mb s) (r_pb s) = r_ab s.
+Proof. exact restart_false_iff. Qed.
+Print Assumptions restart_check_false_iff.
+
+Theorem restart_writeback_roundtrip : forall (s : rstate),
+  length (r_pn s) = length (r_mn s) -> length (r_an s) = count_true (r_mn s) ->
+  select (r_mn s) (scatter (r_mn s) (r_an s) (r_pn s)) = r_an s.
+Proof. exact restart_keeps_component_change. Qed.
+Print Assumptions restart_writeback_roundtrip.
+
 (* non-vacuity: a meshed net with a parallel branch, an outage, a directed branch against the supply direction,
    a flow-return-connect branch to an otherwise unconnected node, and an island *)
 Definition ex_bs : list branch :=
